@@ -26,16 +26,16 @@ import (
 // C20: interceptors and stats handlers see every RPC exactly once, in order.
 
 type c20Case struct {
-	SrvChain   int    `json:"server_chain_length"`
-	SrvSingle  bool   `json:"server_single_not_chained"`
-	CliIcpt    bool   `json:"client_interceptor"`
-	StatsSrv   int    `json:"server_stats_handlers"`
-	StatsCli   int    `json:"client_stats_handlers"`
-	Kind       string `json:"kind"`
-	Outcome    string `json:"outcome"`
+	SrvChain  int    `json:"server_chain_length"`
+	SrvSingle bool   `json:"server_single_not_chained"`
+	CliIcpt   bool   `json:"client_interceptor"`
+	StatsSrv  int    `json:"server_stats_handlers"`
+	StatsCli  int    `json:"client_stats_handlers"`
+	Kind      string `json:"kind"`
+	Outcome   string `json:"outcome"`
 }
 
-var c20Outcomes = []string{"ok", "handler-error", "cancel", "deadline", "transport-failure", "failed-open", "call-on-failed-connection", "cancel-with-response-uncollected", "handler-error-eof"}
+var c20Outcomes = []string{"ok", "handler-error", "cancel", "deadline", "transport-failure", "failed-open", "call-on-failed-connection", "cancel-with-response-uncollected", "handler-error-eof", "early-return-late-empty-messages"}
 
 func c20List(tier string) []c20Case {
 	var out []c20Case
@@ -96,7 +96,9 @@ func c20ConnEnd(tier string, seed int64, idx int, c c20Case, res *core.Result) {
 			reqs = append(reqs, &wire.Rpc{Id: uint64(i + 1), Header: &goatorepo.RequestHeader{Method: svc.MUnary, Source: "c0", Destination: "srv"}, Body: &goatorepo.Body{Data: body}})
 		}
 	case "conn-end/stream-backlog":
-		hd := func() *goatorepo.RequestHeader { return &goatorepo.RequestHeader{Method: svc.MBidi, Source: "c0", Destination: "srv"} }
+		hd := func() *goatorepo.RequestHeader {
+			return &goatorepo.RequestHeader{Method: svc.MBidi, Source: "c0", Destination: "srv"}
+		}
 		reqs = append(reqs, &wire.Rpc{Id: 1, Header: hd()})
 		for i := 0; i < 3; i++ {
 			reqs = append(reqs, &wire.Rpc{Id: 1, Header: hd(), Body: &goatorepo.Body{Data: body}})
@@ -357,6 +359,24 @@ func c20Run(tier string, seed int64, idx int) *core.Result {
 	if c.Outcome == "handler-error-eof" {
 		herr = io.EOF // e.g. `return err` on stream.Recv() after the half-close
 	}
+	// the handler returns at once; its trailer is held in the server's writer while the caller, who
+	// cannot know yet, sends three messages with an empty encoding; they reach the server after the
+	// stream was closed there. One RPC took place.
+	lateEmpty := c.Outcome == "early-return-late-empty-messages" && (c.Kind == "client" || c.Kind == "bidi")
+	trailerParked := make(chan struct{}, 1)
+	releaseTrailer := make(chan struct{})
+	lateSent := make(chan struct{})
+	if lateEmpty {
+		var once sync.Once
+		h.On("srv.writer.beforeWrite", func(uint64) {
+			fired := false
+			once.Do(func() { fired = true })
+			if fired {
+				trailerParked <- struct{}{}
+				<-releaseTrailer
+			}
+		})
+	}
 	uncollected := c.Outcome == "cancel-with-response-uncollected"
 	parkHandler := c.Outcome == "cancel" || c.Outcome == "deadline" || c.Outcome == "transport-failure" || uncollected
 	var hmu sync.Mutex
@@ -382,6 +402,9 @@ func c20Run(tier string, seed int64, idx int) *core.Result {
 		hMD = md.Copy()
 		handlerRan++
 		hmu.Unlock()
+		if lateEmpty {
+			return nil
+		}
 		if k != "client" || true {
 			var m svc.BV
 			if err := ss.RecvMsg(&m); err == nil {
@@ -437,7 +460,13 @@ func c20Run(tier string, seed int64, idx int) *core.Result {
 			callErr = err
 			return
 		}
-		if c.Kind != "server" {
+		if lateEmpty {
+			gates.Wait("go-late")
+			for k := 0; k < 3; k++ {
+				s.Send([]byte{})
+			}
+			close(lateSent)
+		} else if c.Kind != "server" {
 			if err := s.Send([]byte("q")); err != nil && err != io.EOF {
 				callErr = err
 				return
@@ -463,6 +492,22 @@ func c20Run(tier string, seed int64, idx int) *core.Result {
 			callErr = nil
 		}
 	}()
+	if lateEmpty {
+		if stp, _ := settle(tier, func() bool { return len(trailerParked) > 0 }); stp == "ok" {
+			gates.Open("go-late")
+			settle(tier, func() bool {
+				select {
+				case <-lateSent:
+					return true
+				default:
+					return false
+				}
+			})
+			quiet(tier)
+			res.Stat("late_empty_messages_after_server_end", 1)
+		}
+		close(releaseTrailer)
+	}
 	if parkHandler {
 		// wait until the handler runs, then inject the outcome
 		settle(tier, func() bool { hmu.Lock(); defer hmu.Unlock(); return handlerRan > 0 })
@@ -637,7 +682,7 @@ func c20Run(tier string, seed int64, idx int) *core.Result {
 			if side == "s" {
 				// on the server side the RPC succeeded iff the handler returned nil: a unary handler
 				// is not interrupted by the caller going away (it returns its reply, which is dropped)
-				success = c.Outcome == "ok" || (c.Kind == "unary" && c.Outcome != "handler-error" && c.Outcome != "handler-error-eof")
+				success = c.Outcome == "ok" || c.Outcome == "early-return-late-empty-messages" || (c.Kind == "unary" && c.Outcome != "handler-error" && c.Outcome != "handler-error-eof")
 			}
 			if (endErr == nil) != success {
 				res.Violate(fmt.Sprintf("stats-end-error-mismatch/%s/%s", side, c.Outcome), "%s: %s-side End.Error=%v but the RPC %s on that side", where, side, endErr, map[bool]string{true: "succeeded", false: "failed"}[success])
@@ -657,7 +702,9 @@ func init() {
 		Rule:  "one RPC per case over the cross product server interceptor chain length 1..6 (ChainUnary/ChainStreamInterceptor, and the single-interceptor options for length 1) x client interceptor {none, one} x 1..3 stats handlers per side x 4 RPC kinds x 9 outcomes {ok, handler error, handler failing with io.EOF, cancel, cancel while a response sits uncollected in the read loop, manual deadline, transport failure, open failing in the transport write, call on a connection whose read already failed} (quick: a fixed third of the middle chain lengths). Every interceptor records enter/exit and edits context metadata, request, reply and error; every stats handler tags the context with a fresh token. Plus connection-level cases: one ConnBegin/ConnEnd per served connection when it ends by Stop / write failure / read failure while idle, while all 8 unary workers are busy with more requests pending, and while a stream whose handler does not read has a full queue. All cases are distinct tuples and non-trivial.",
 		Plan:  func(tier string, seed int64) int { return len(c20List(tier)) },
 		Run:   c20Run,
-		RequiredStats: func(string) []string { return []string{"rpcs", "stats_handler_rpc_views_checked", "conn_end_scenarios"} },
+		RequiredStats: func(string) []string {
+			return []string{"rpcs", "stats_handler_rpc_views_checked", "conn_end_scenarios"}
+		},
 		Assumptions: []string{"goat offers one client interceptor slot; client-side chains longer than one are user code and not exercised"},
 	})
 }
